@@ -59,9 +59,12 @@ package election
 //@   option event Check
 //@   modifies ghost evres
 
+// Close: the holder stops believing in its lease BEFORE the lease (and with it the leader record) is revoked on the
+// etcd side - otherwise another member could win a campaign while this one still passes Check().
 //@ func (*lease).Close
 //@   props C03
 //@   ensures closed(l)
+//@   at Revoke 1 assert [locally-expired-before-the-record-is-revoked] closed(l)
 //@   modifies l.expireTime.v
 
 // The keep-alive worker's inner request (one goroutine per tick, verified on its own): the local deadline handed to the
